@@ -55,7 +55,7 @@ def one_case(rng, tier):
 
 
 def generate(rng, tier):
-    n = 2000 if tier == "quick" else 40000
+    n = 4000 if tier == "quick" else 50000
     cases = [one_case(rng, tier) for _ in range(n)]
     info = {"rule": "subjects <= 6 over a 3-letter critical alphabet x wrapper-built expressions (nullable, empty, with complement, anchored by Sigma*) x replacements <= 2 (including ones that contain a match); replace_re and replace_re_all; non-trivial = expression has an operator and subject non-empty",
             "distribution": {"cases": n}}
